@@ -1045,8 +1045,74 @@ class Canonicaliser:
                     for ch in ast.iter_child_nodes(n):
                         ch._parent = n
 
+    def inline_conversion_wrappers(self):
+        """a module-level function `f(x)` that returns `x` when x is empty or already in unit U and `x.to(U)` otherwise
+        is x.to(U) (to() converts in place and returns its receiver; on an empty object and on a value already in U it
+        changes nothing): calls f(e) read as e.to(U) everywhere in the package"""
+        pm = self.pm
+        wrappers = {}
+        for m, (rel, tree, _) in pm.modules.items():
+            for f in tree.body:
+                if not (isinstance(f, ast.FunctionDef) and len(f.args.args) == 1 and not f.args.vararg and not f.args.kwarg
+                        and not f.args.kwonlyargs and not f.decorator_list):
+                    continue
+                p_ = f.args.args[0].arg
+                body = [b for b in f.body if not (isinstance(b, ast.Expr) and isinstance(b.value, ast.Constant))]
+                if not (len(body) == 2 and isinstance(body[0], ast.If) and not body[0].orelse and len(body[0].body) == 1
+                        and isinstance(body[0].body[0], ast.Return) and isinstance(body[0].body[0].value, ast.Name)
+                        and body[0].body[0].value.id == p_ and isinstance(body[1], ast.Return)):
+                    continue
+                r = body[1].value
+                if not (isinstance(r, ast.Call) and isinstance(r.func, ast.Attribute) and r.func.attr == "to"
+                        and isinstance(r.func.value, ast.Name) and r.func.value.id == p_ and len(r.args) == 1 and not r.keywords):
+                    continue
+                U = norm_name(r.args[0]) if isinstance(r.args[0], (ast.Name, ast.Attribute)) else None
+                if U is None:
+                    continue
+                t = body[0].test
+                atoms = t.values if isinstance(t, ast.BoolOp) and isinstance(t.op, ast.Or) else [t]
+
+                def harmless(a):
+                    if isinstance(a, ast.Call) and isinstance(a.func, ast.Name) and a.func.id == "isinstance" and len(a.args) == 2 \
+                            and isinstance(a.args[0], ast.Name) and a.args[0].id == p_ \
+                            and isinstance(a.args[1], ast.Name) and a.args[1].id == "EmptyExplainableObject":
+                        return True
+                    if isinstance(a, ast.Compare) and len(a.ops) == 1 and isinstance(a.ops[0], ast.Eq):
+                        l, r_ = a.left, a.comparators[0]
+                        for x, y in ((l, r_), (r_, l)):
+                            if isinstance(y, (ast.Name, ast.Attribute)) and norm_name(y) == U and isinstance(x, ast.Attribute) \
+                                    and ast.unparse(x) in (f"{p_}.unit", f"{p_}.value.units", f"{p_}.units"):
+                                return True
+                    return False
+                if all(harmless(a) for a in atoms):
+                    wrappers[f.name] = r.args[0]
+        if not wrappers:
+            return
+        n = [0]
+
+        class W(ast.NodeTransformer):
+            def visit_Call(self, node):
+                self.generic_visit(node)
+                if isinstance(node.func, ast.Name) and node.func.id in wrappers and len(node.args) == 1 and not node.keywords \
+                        and not isinstance(node.args[0], ast.Starred):
+                    n[0] += 1
+                    return ast.copy_location(ast.Call(
+                        func=ast.Attribute(value=node.args[0], attr="to", ctx=ast.Load()),
+                        args=[clone(wrappers[node.func.id])], keywords=[]), node)
+                return node
+        for m, (rel, tree, _) in pm.modules.items():
+            defined_here = {f.name for f in tree.body if isinstance(f, ast.FunctionDef)}
+            imported = {a.asname or a.name for st in tree.body if isinstance(st, ast.ImportFrom) for a in st.names}
+            if (defined_here | imported) & set(wrappers):
+                for st in tree.body:
+                    if not (isinstance(st, ast.FunctionDef) and st.name in wrappers):
+                        W().visit(st)
+                ast.fix_missing_locations(tree)
+        self.stats["conversion_wrapper_calls"] = n[0]
+
     def run(self):
         pm = self.pm
+        self.inline_conversion_wrappers()
         self.apply_decorators()
         self.apply_context_managers()
         for m, (rel, tree, _) in pm.modules.items():
